@@ -66,13 +66,31 @@ def g_ccsds(P, tier):
     o = construct(it, env, "ccsds.time.cds.CdsShortTimestamp", dict(ccsds_days=C(0), ms_of_day=C(0)))
     call_method(it, env, o, "read_from_raw", [DATA])
     yield Run("ccsds.time.cds.CdsShortTimestamp.read_from_raw", "", it, env, o, "data", C(7))
-    # stream parser helper under the caller's guarantee
-    buf = sym("concatenated_packets", ty="bytes"); idx = sym("current_idx", ty="int")
+    # stream parser: the scan part as a whole over one symbolic buffer, first three iterations peeled (helpers inlined,
+    # whatever they are called), the same way C13 analyses it
+    from .props import c13 as _c13
+    import ast as _ast
+    f = P.func("ccsds.spacepacket.parse_space_packets")
+    body = [s_ for s_ in f.node.body if not (isinstance(s_, _ast.Expr) and isinstance(s_.value, _ast.Constant))]
+    probs, bname, drain_st = _c13.find_drain(P, f)
+    if bname is None:
+        raise Unsupported("parse_space_packets: drain loop not located")
+    loops = [s_ for s_ in body if isinstance(s_, (_ast.While, _ast.For)) and s_ is not drain_st and body.index(s_) > body.index(drain_st)]
+    if len(loops) != 1:
+        raise Unsupported("parse_space_packets: scan loop not located")
+    buf = sym("concatenated_packets", ty="bytes")
     it = new_interp(P); env = Env()
-    env.add_fact(binop(">=", idx, C(0))); env.add_fact(binop("<=", binop("+", idx, C(6)), length(buf)))
-    r = it.call_func(P.func("ccsds.spacepacket.__handle_packet_id_match"), [], dict(concatenated_packets=buf, analysis_queue=sym("analysis_queue", ty=("list", "bytes")),
-                                                                                   current_idx=idx, tm_list=sym("tm_list", ty=("list", "bytes"))), env)
-    yield Run("ccsds.spacepacket.parse_space_packets", "helper under idx+6 <= len", it, env, r, None, None, independent=False)
+    it.peel_depth = 3
+    it.guarded_join = True
+    env.vars[bname] = buf
+    env.vars[f.node.args.args[0].arg] = sym("analysis_queue", ty=("list", "bytes"))
+    for s_ in body[:body.index(drain_st)]:
+        for n_ in _ast.walk(s_):
+            if isinstance(n_, _ast.Name) and isinstance(n_.ctx, _ast.Store) and n_.id not in env.vars:
+                env.vars[n_.id] = sym(n_.id, ty=("list", None))
+    it.where.append(f.short)
+    it.block(body[body.index(drain_st) + 1:body.index(loops[0]) + 1], env, f.module, f, [])
+    yield Run("ccsds.spacepacket.parse_space_packets", "scan part, three peeled iterations", it, env, NONE, None, None, independent=False)
 
 
 def g_pus(P, tier):
@@ -272,7 +290,7 @@ NOT_DECODERS = {
     "ecss.tc.generate_crc": "appends a CRC to given octets (encoder helper)", "ecss.tc.generate_packet_crc": "rewrites the CRC of a given packet (encoder helper)",
     "cfdp.tlv.tlv.FileStoreRequestBase._common_unpacker": "private helper, analysed through the two filestore TLV decoders",
     "uslp.header.PrimaryHeaderBase._unpack_raw_header_base_fields": "private helper, analysed through both USLP header decoders",
-    "ccsds.spacepacket.__handle_packet_id_match": "private helper of parse_space_packets (analysed under the caller's guarantee)",
+    "ccsds.spacepacket.__handle_packet_id_match": "private helper of parse_space_packets (analysed inline through the scan part of the parser)",
 }
 
 
